@@ -43,7 +43,7 @@ func TestVerifMicroHandlerWrapper(t *testing.T) {
 			if r.Fallback {
 				opts = append(opts, WithServerBlockFallback(func(context.Context, server.Request, *base.BlockError) error { return errFallback }))
 			}
-			err := NewHandlerWrapper(opts...)(func(context.Context, server.Request, interface{}) error { return handler() })(context.Background(), fakeServerReq{}, nil)
+			err := NewHandlerWrapper(opts...)(func(context.Context, server.Request, interface{}) error { return handler() })(vCtx(), fakeServerReq{}, nil)
 			return vOut{Err: err}
 		},
 		Instance: func(ext, fb bool) func(func() error) vOut {
@@ -56,7 +56,7 @@ func TestVerifMicroHandlerWrapper(t *testing.T) {
 			}
 			w := NewHandlerWrapper(opts...)
 			return func(h func() error) vOut {
-				return vOut{Err: w(func(context.Context, server.Request, interface{}) error { return h() })(context.Background(), fakeServerReq{}, nil)}
+				return vOut{Err: w(func(context.Context, server.Request, interface{}) error { return h() })(vCtx(), fakeServerReq{}, nil)}
 			}
 		}, Rejected: rejected})
 }
@@ -68,7 +68,7 @@ type fakeStream struct {
 
 func (s *fakeStream) Request() server.Request     { return fakeServerReq{} }
 func (s *fakeStream) Send(v interface{}) error     { s.sent = append(s.sent, v); return nil }
-func (s *fakeStream) Context() context.Context     { return context.Background() }
+func (s *fakeStream) Context() context.Context     { return vCtx() }
 
 type fallbackStream struct{ server.Stream }
 
@@ -130,10 +130,10 @@ func clientRun(stream, outlierPath bool) func(r vReq, handler func() error) vOut
 		c := NewClientWrapper(opts...)(fakeClient{handler: handler})
 		req := client.NewClient().NewRequest("verif.svc", "Verif.Call", nil)
 		if stream {
-			_, err := c.Stream(context.Background(), req)
+			_, err := c.Stream(vCtx(), req)
 			return vOut{Err: err}
 		}
-		return vOut{Err: c.Call(context.Background(), req, nil)}
+		return vOut{Err: c.Call(vCtx(), req, nil)}
 	}
 }
 
@@ -159,11 +159,11 @@ func clientInstance(stream, outlierPath bool) func(ext, fb bool) func(func() err
 			hs.with(h, func() {
 				req := client.NewClient().NewRequest("verif.svc", "Verif.Call", nil)
 				if stream {
-					_, err := c.Stream(context.Background(), req)
+					_, err := c.Stream(vCtx(), req)
 					out = vOut{Err: err}
 					return
 				}
-				out = vOut{Err: c.Call(context.Background(), req, nil)}
+				out = vOut{Err: c.Call(vCtx(), req, nil)}
 			})
 			return out
 		}
